@@ -997,6 +997,14 @@ def asarray(x, dtype=None):
     raise Unsupported(f"asarray({type(x).__name__})")
 
 
+def _retag(a, tag):
+    a.dtype_tag = tag
+    if a.ndim == 2:
+        for row in a.d:
+            row.dtype_tag = tag
+    return a
+
+
 def _into(out, r):
     """numpy's `out=` argument: store the result into the given array (write-through) and return it."""
     if out is None:
@@ -1722,7 +1730,12 @@ class NP:
             if isinstance(x, float) and (math.isinf(x) or math.isnan(x)) or isinstance(y, float) and (math.isinf(y) or math.isnan(y)):
                 return isinstance(x, float) and isinstance(y, float) and x == y
             return _cmp(abs(x - y), at + rt * abs(y), "le")
-        return self._ew2(a, b, one) if not (_is_scalar(a) and _is_scalar(b)) else one(a, b)
+        if _is_scalar(a) and _is_scalar(b):
+            return one(a, b)
+        r = self._ew2(a, b, one)
+        if isinstance(r, SymArray):
+            _retag(r, "bool")
+        return r
 
     def allclose(self, a, b, rtol=1e-05, atol=1e-08, equal_nan=False):
         r = self.isclose(a, b, rtol=rtol, atol=atol)
